@@ -29,16 +29,40 @@ var tokFull = []string{
 	"\"abc", "/*", "\n", "// c",
 }
 
-// sub-alphabet for the longest length of the thorough tier
-var tokSub = []string{
+// core alphabet (48): tokFull without the four extra operator tokens; used for
+// length 4 in the thorough tier
+var tokCore = func() []string {
+	drop := map[string]bool{"*": true, "!": true, "==": true, "&&": true}
+	var out []string
+	for _, t := range tokFull {
+		if !drop[t] {
+			out = append(out, t)
+		}
+	}
+	return out
+}()
+
+// mid alphabet (32, a subset of tokCore) for length 4 in the quick tier
+var tokMid = []string{
 	":=", "=", "+=", "++", "...", "?", ":", ".", ",", ";", "(", ")", "[", "]", "{", "}",
 	"+", "func", "return", "if", "else", "for", "in", "break", "export", "import",
 	"error", "a", "len", "1", "\"s\"", "\n",
 }
 
+// sub-alphabet (24) for length 5 in the thorough tier
+var tokSub = []string{
+	":=", "=", ".", ",", ";", "(", ")", "[", "]", "{", "}", ":", "...",
+	"func", "for", "in", "if", "break", "import", "a", "len", "1", "\"s\"", "\n",
+}
+
 func tokAlphabet(name string) []string {
-	if name == "sub" {
+	switch name {
+	case "sub":
 		return tokSub
+	case "core":
+		return tokCore
+	case "mid":
+		return tokMid
 	}
 	return tokFull
 }
@@ -101,9 +125,10 @@ func byteInput(buf []byte, alpha []byte, k int, idx int64) []byte {
 // ---- bounds per tier ---------------------------------------------------------
 
 type bounds struct {
-	TokFullLen  int // all lengths 0..TokFullLen over tokFull
-	TokFullCfg  int // lengths <= TokFullCfg run the full configuration product
-	TokSubLen   int // 0 = none; else exactly this length over tokSub
+	TokFullLen  int    // all lengths 1..TokFullLen over tokFull (full configuration product)
+	TokLongLen  int    // exactly this length over TokLongAlpha (two configurations)
+	TokLongAlph string // mid (32 tokens, quick) | core (48 tokens, thorough)
+	TokSubLen   int    // 0 = none; else exactly this length over tokSub (two configurations)
 	B256Len     int // lengths 0..B256Len over all 256 bytes
 	B256FullCfg int
 	B16Len      int // lengths B256Len+1..B16Len over bytes16
@@ -112,9 +137,9 @@ type bounds struct {
 
 func tierBounds(thorough bool) bounds {
 	if thorough {
-		return bounds{TokFullLen: 4, TokFullCfg: 3, TokSubLen: 5, B256Len: 3, B256FullCfg: 2, B16Len: 5, B16FullCfg: 4}
+		return bounds{TokFullLen: 3, TokLongLen: 4, TokLongAlph: "core", TokSubLen: 5, B256Len: 3, B256FullCfg: 2, B16Len: 5, B16FullCfg: 4}
 	}
-	return bounds{TokFullLen: 4, TokFullCfg: 3, TokSubLen: 0, B256Len: 2, B256FullCfg: 2, B16Len: 4, B16FullCfg: 4}
+	return bounds{TokFullLen: 3, TokLongLen: 4, TokLongAlph: "mid", TokSubLen: 0, B256Len: 2, B256FullCfg: 2, B16Len: 4, B16FullCfg: 3}
 }
 
 // ---- distinctness across families -------------------------------------------
@@ -144,8 +169,7 @@ func inBytesFamily(s []byte, b bounds) bool {
 	return true
 }
 
-var tokFullSet = setOf(tokFull)
-var tokSubSet = setOf(tokSub)
+var tokSets = map[string]map[string]bool{"full": setOf(tokFull), "core": setOf(tokCore), "mid": setOf(tokMid), "sub": setOf(tokSub)}
 
 func setOf(a []string) map[string]bool {
 	m := map[string]bool{}
@@ -176,25 +200,21 @@ func splitTokens(s string) []string {
 
 func inTokFamily(s string, b bounds) bool {
 	toks := splitTokens(s)
-	if len(toks) <= b.TokFullLen {
-		ok := true
+	all := func(set map[string]bool) bool {
 		for _, t := range toks {
-			if !tokFullSet[t] {
-				ok = false
-				break
-			}
-		}
-		if ok {
-			return true
-		}
-	}
-	if b.TokSubLen > 0 && len(toks) == b.TokSubLen {
-		for _, t := range toks {
-			if !tokSubSet[t] {
+			if !set[t] {
 				return false
 			}
 		}
 		return true
+	}
+	switch {
+	case len(toks) <= b.TokFullLen:
+		return all(tokSets["full"])
+	case len(toks) == b.TokLongLen:
+		return all(tokSets[b.TokLongAlph])
+	case b.TokSubLen > 0 && len(toks) == b.TokSubLen:
+		return all(tokSets["sub"])
 	}
 	return false
 }
@@ -234,6 +254,8 @@ var corpusValid = []string{
 	`f := func ( ) { g := func ( n ) { if n == 0 { return 0 } ; return g ( n - 1 ) } ; return g ( 2 ) } ; a := f ( )`,
 	`f := func ( ) { for i := 0 ; i < 3 ; i ++ { g := func ( ) { for { break } ; for x in [ 1 ] { continue } ; return i } ; if g ( ) > 1 { break } else { continue } } } ; f ( )`,
 	`for { f := func ( ) { return } ; f ( ) ; break }`,
+	`for { func ( ) { return } ; break }`,
+	`for { func ( ) { a := 1 ; b := 2 ; c := a + b ; return c } ; break }`,
 	`for i in [ 1 ] { f := func ( ) { return i } ; if f ( ) { continue } }`,
 	`a := immutable ( [ 1 , 2 ] ) ; b := immutable ( { c : 1 } ) ; e := error ( "x" ) ; d := e . value`,
 	`x := import ( "m1" ) ; a := x . f ( 1 )`,
@@ -338,8 +360,8 @@ func limitSpecs() []string {
 	add("params", 254, 255, 256)
 	add("freevars", 255, 256)
 	add("array", 65535, 65536)
-	add("map", 32767, 32768, 65535, 65536)
-	add("consts", 65535, 65536, 65537)
+	add("map", 32768, 65536)
+	add("consts", 65535, 65536)
 	add("selectors", 255, 256)
 	add("indexchain", 255, 256)
 	add("parens", 100, 1000, 10000)
